@@ -60,6 +60,7 @@ func concStrArg(v Value) string {
 type mutexSt struct {
 	writer  bool
 	readers int
+	pending *G // RWMutex: a writer has announced itself and waits for the readers to leave; new readers block (Go's writer preference)
 }
 type wgSt struct{ n int64 }
 
@@ -101,9 +102,14 @@ func init() {
 		// ---- sync (seq scheduler) ----
 		"(*sync.RWMutex).Lock": func(in *Interp, fr *Frame, a []Value) (Value, bool) {
 			m := in.mutexOf(a[0])
-			if m.writer || m.readers > 0 {
+			if m.writer || (m.pending != nil && m.pending != in.cur) {
 				return Value{}, false
 			}
+			if m.readers > 0 {
+				m.pending = in.cur // announce: from now on RLock blocks until this writer is done
+				return Value{}, false
+			}
+			m.pending = nil
 			m.writer = true
 			in.gatePassed()
 			in.raceAcquire(m)
@@ -122,7 +128,7 @@ func init() {
 		},
 		"(*sync.RWMutex).RLock": func(in *Interp, fr *Frame, a []Value) (Value, bool) {
 			m := in.mutexOf(a[0])
-			if m.writer {
+			if m.writer || m.pending != nil {
 				return Value{}, false
 			}
 			m.readers++
